@@ -23,6 +23,32 @@ def run(ctx):
             r["failures"] += cc.c02_failures(name, c, canon)
             n_missing += sum(1 for k in ("xs", "rho", "z", "lon", "lat") for v in c.get(k, []) if v is None)
         results.append(r)
+    # repeated / sub-second timestamps: a zero whole-second step makes numpy.ma mask the quotient; the positions
+    # involved are all present, so nothing there may be reported MISSING (implementation only: the functional
+    # properties C10 do not define a rate over zero elapsed seconds, the models are not consulted)
+    import copy
+    zero_fail, zero_eval = [], 0
+    for name, ad, cs, r in tied:
+        key = {"rate_of_change_test": "ts_ns", "speed_test": "ts_ns"}.get(name)
+        if key is None:
+            continue
+        for c in cc.sample([c for c in cs if len(c.get(key, [])) >= 3], 150 if tier == "quick" else 1500, rng):
+            d = copy.deepcopy(c)
+            ts = list(d[key])
+            for _ in range(rng.randint(1, 2)):
+                i = rng.randrange(1, len(ts))
+                ts[i] = ts[i - 1] + rng.choice([0, 0, 250_000_000, 999_999_999])      # same second
+                for j in range(i + 1, len(ts)):
+                    if ts[j] <= ts[j - 1]:
+                        ts[j] = ts[j - 1] + 1_000_000_000
+            d[key] = ts
+            d["kind"] = "dt64"                       # the only carrier of sub-second instants
+            canon, _ = ad.impl(d)
+            zero_eval += 1
+            zero_fail += cc.c02_failures(name, d, canon)
+    if zero_eval:
+        results.append({"evaluations": zero_eval, "distinct_nontrivial": zero_eval, "failures": zero_fail, "errors": [],
+                        "samples": [], "distribution": {"zero_step_time_axes": zero_eval}})
     out = adapters.merge(
         results,
         rule="per test: a random sample of the in-domain generated cases (which enumerate every placement of missing values "
